@@ -20,7 +20,7 @@ def run(ctx: Ctx, chk) -> None:
     chk.rule(rule, "a task that is cancelled and then awaited does not re-raise CancelledError into the awaiter (protected await, or a body that absorbs cancellation at every suspension point)")
     pers = ctx.cls(PERS)
     funcs = []
-    for fl in pers.methods.values():
+    for fl in pers.mro_methods().values():
         for f in fl:
             funcs.append(f)
             funcs.extend(f.nested.values())
@@ -393,7 +393,10 @@ def disc1(ctx: Ctx, chk) -> None:
     rule = "DISC-1"
     chk.rule(rule, "leaving the context disconnects the stream that entering it opened: disconnect() closes self.writer whenever it is set, and self.writer / self.reader are assigned only by __init__ and connect() (or cleared by disconnect() after the close) - no other code path can make disconnect() a no-op while the stream is still open")
     st = ctx.cls("aiomysensors.transport.StreamTransport")
-    classes = [st] + list(ctx.prog.subclasses(st))
+    classes = []
+    for c in st.repo_mro() + list(ctx.prog.subclasses(st)):  # base classes / mixins the stream state may live in
+        if c not in classes:
+            classes.append(c)
     n = 0
     for c in classes:
         for fl in c.methods.values():
@@ -595,6 +598,12 @@ def tasks1(ctx: Ctx, chk) -> None:
                 chk.refute(rule, key, f"`{norm(node)[:70]}` runs its argument as an independent task that cancellation of {f.qualname} does not stop: when the context is left during that operation, stop() returns while the shielded operation is still running in the background and can overwrite the final save", ctx.loc(f, node))
                 continue
             par = ctx.prog.parents.get(node)
+            if isinstance(par, ast.Await):
+                # awaited where it is started: the awaiting coroutine does not go on before it finished, and a
+                # cancellation of the awaiter cancels it too (a thread job that is already running is the subject
+                # of ORDERED-IO)
+                chk.ok(rule, key, f"{kind}: awaited in place - not an independent task", ctx.loc(f, node), sample=False)
+                continue
             tname = norm(par.targets[0]) if isinstance(par, ast.Assign) else None
             scope = f
             cancels = False
